@@ -2,6 +2,7 @@ package main
 
 import (
 	"go/ast"
+	"go/types"
 	"strings"
 )
 
@@ -136,6 +137,16 @@ func runC04(c *RuleCtx) {
 			c.Check(ok2, "R04.3", f.Name, "result="+rv.Name+" only in the arm of that received verdict", as, why, why)
 			return true
 		})
+		// a verdict may also be returned directly from the collecting loop (`return ValidationReject`)
+		returnsIn(f, func(r *ast.ReturnStmt) {
+			if len(r.Results) == 1 && len(p.EnclosingLoops(r)) > 0 {
+				if v := p.R(f).Val(r.Results[0]); v.Kind == "const" {
+					if _, known := rank[v.Name]; known {
+						n++
+					}
+				}
+			}
+		})
 		if n < 4 {
 			c.Undecided("R04.3", f.Name, "verdict assignments", f.Decl, "expected the initialisation and three assignments of the combined verdict")
 		}
@@ -173,7 +184,13 @@ func runC04(c *RuleCtx) {
 				nEx++
 				okEx := false
 				detail := "combined verdict unknown at the exit"
-				if resObj != nil {
+				if rs, isRet := ex.(*ast.ReturnStmt); isRet && len(rs.Results) == 1 {
+					// leaving by returning a verdict: what matters is the verdict returned
+					if cur, def := ef.At(rs, rs.Results[0]); def {
+						okEx = cur.SubsetOf("ValidationReject")
+						detail = "returned verdict " + cur.String()
+					}
+				} else if resObj != nil {
 					cur, def := ef.At(ex, resObj)
 					if !def {
 						// a break/continue is not a CFG node: take the state after the statement in front of it
@@ -340,38 +357,77 @@ func runC04(c *RuleCtx) {
 		}
 		g := p.Graph(f)
 		var resExpr ast.Expr
+		// the inline verdict is the 4th parameter, the delivery callback the 5th — whatever they are called
+		inlineName, onValidName := "r", "onValid"
+		if o := paramObj(f, 3); o != nil {
+			inlineName = o.Name()
+		}
+		if o := paramObj(f, 4); o != nil {
+			onValidName = o.Name()
+		}
+		// the combined verdict: the local that receives validateTopic's result
+		inspectNoLit(f.Body, func(x ast.Node) bool {
+			if as, ok := x.(*ast.AssignStmt); ok && len(as.Lhs) == 1 && len(as.Rhs) == 1 && resExpr == nil {
+				if call, ok := unparen(as.Rhs[0]).(*ast.CallExpr); ok && p.CalleeName(f.Info(), call) == "(*validation).validateTopic" {
+					resExpr = as.Lhs[0]
+				}
+			}
+			return true
+		})
 		for _, in := range [][]string{{"ValidationAccept"}, {"ValidationIgnore"}, {"ValidationAccept", "ValidationIgnore"}} {
 			ps := ValSet{}
 			for _, x := range in {
 				ps[x] = true
 			}
-			ef := &EnumFlow{P: p, F: f, Universe: verdicts, TypeName: "ValidationResult", Summary: summ3, Params: map[string]ValSet{"r": ps}}
+			ef := &EnumFlow{P: p, F: f, Universe: verdicts, TypeName: "ValidationResult", Summary: summ3, Params: map[string]ValSet{inlineName: ps}}
 			ef.Run()
-			for _, cs := range p.Sites(f, false, "var:onValid") {
+			for _, cs := range p.Sites(f, false, "var:"+onValidName) {
 				reach := ef.NodeReachable(cs.Call)
 				if len(in) == 1 && in[0] == "ValidationIgnore" {
 					c.Check(!reach, "R04.4", f.Name, "inline Ignore never upgraded by async Accept", cs.Call, "onValid is value-unreachable when the inline verdict is Ignore", "onValid is reachable although the inline stage returned Ignore")
 				}
 			}
 			if len(in) == 2 {
-				// the switched value set is covered by the four arms (default arm = panic unreachable)
-				inspectNoLit(f.Body, func(x ast.Node) bool {
-					sw, ok := x.(*ast.SwitchStmt)
-					if !ok || sw.Tag == nil || !ef.isEnumTyped(sw.Tag) {
-						return true
+				// the dispatch (switch or if-chain) covers every value the verdict can take: the "unexpected result" panic
+				// is value-unreachable
+				nPanic := 0
+				for _, cs := range p.FuncCalls(f, false) {
+					if cs.Name != "builtin.panic" {
+						continue
 					}
-					resExpr = sw.Tag
-					s, _ := ef.At(sw.Tag, sw.Tag)
-					c.Check(s.SubsetOf(verdicts...), "R04.4", f.Name, "switched verdict within the four handled values", sw, "set "+s.String(), "the switched verdict may be "+s.String()+": the default arm panics")
-					return true
-				})
+					nPanic++
+					c.Check(!ef.NodeReachable(cs.Call), "R04.4", f.Name, "switched verdict within the four handled values", cs.Call, "the default arm is value-unreachable", "the verdict can take a value none of the arms handles: the default arm panics")
+				}
+				if nPanic == 0 {
+					c.Check(true, "R04.4", f.Name, "switched verdict within the four handled values", f.Decl, "no panic in the dispatch", "")
+				}
 			}
 		}
 		for _, tc := range []struct{ verdict, reason string }{{"ValidationReject", "RejectValidationFailed"}, {"ValidationIgnore", "RejectValidationIgnored"}, {"validationThrottled", "RejectValidationThrottled"}} {
 			if resExpr == nil {
 				break
 			}
-			a := AtomCmp("result == "+tc.verdict, func(v *V) bool { return v.Equal(p.R(f).Val(resExpr)) }, "==", isConstV(tc.verdict))
+			// comparisons of the combined-verdict variable itself (by object: its value is reassigned along the way)
+			var resObj types.Object
+			if id, ok := unparen(resExpr).(*ast.Ident); ok {
+				resObj = f.Info().ObjectOf(id)
+			}
+			verdictConst := tc.verdict
+			a := Atom{Desc: "result == " + tc.verdict, Match: func(g *Graph, e ast.Expr) (bool, bool) {
+				be, ok := unparen(e).(*ast.BinaryExpr)
+				if !ok || (be.Op.String() != "==" && be.Op.String() != "!=") {
+					return false, false
+				}
+				isRes := func(x ast.Expr) bool {
+					id, ok := unparen(x).(*ast.Ident)
+					return ok && resObj != nil && g.F.Info().ObjectOf(id) == resObj
+				}
+				isC := func(x ast.Expr) bool { return g.P.R(g.F).Val(x).IsConst(verdictConst) }
+				if (isRes(be.X) && isC(be.Y)) || (isRes(be.Y) && isC(be.X)) {
+					return true, be.Op.String() == "=="
+				}
+				return false, false
+			}}
 			edges := g.AtomEdges(a, true)
 			if len(edges) == 0 {
 				c.Bad("R04.4", f.Name, tc.verdict+" arm", f.Decl, "no arm for "+tc.verdict)
